@@ -436,6 +436,19 @@ galloc(const struct item *it, const char *kind, size_t n, size_t align)
         return guard_alloc(it->slot, kind, n, align, it->pl);
 }
 
+static void *
+kalloc(struct item *it, const char *kind, size_t n, size_t align, int cls)
+{
+        void *p = galloc(it, kind, n, align);
+        if (it->k.nobjs < (int) ARRAY_SZ(it->k.objs)) {
+                it->k.objs[it->k.nobjs].p = p;
+                it->k.objs[it->k.nobjs].n = n;
+                it->k.objs[it->k.nobjs].cls = cls;
+                it->k.nobjs++;
+        }
+        return p;
+}
+
 static void
 prep_cipher_keys(struct item *it, struct mmgr *km)
 {
@@ -458,21 +471,21 @@ prep_cipher_keys(struct item *it, struct mmgr *km)
                            : it->keylen == 24 ? (void *) m->keyexp_192
                                                : (void *) m->keyexp_256;
                 mcall("keyexp", fn, 3, (uint64_t) k->ckey, (uint64_t) e, (uint64_t) d);
-                k->enc = galloc(it, "enckey", sz, 16);
+                k->enc = kalloc(it, "enckey", sz, 16, 0);
                 memcpy(k->enc, e, sz);
                 if (it->cipher == IMB_CIPHER_CFB) {
                         /* CFB decryption runs the forward cipher: the library's own tests pass
                          * the encryption schedule in both pointers */
                         k->dec = k->enc;
                 } else {
-                        k->dec = galloc(it, "deckey", sz, 16);
+                        k->dec = kalloc(it, "deckey", sz, 16, 0);
                         memcpy(k->dec, d, sz);
                 }
                 break;
         }
         case IMB_CIPHER_GCM:
         case IMB_CIPHER_GCM_SGL: {
-                struct gcm_key_data *g = galloc(it, "gcmkey", sizeof *g, 64);
+                struct gcm_key_data *g = kalloc(it, "gcmkey", sizeof *g, 64, 0);
                 void *fn = it->keylen == 16 ? (void *) m->gcm128_pre
                            : it->keylen == 24 ? (void *) m->gcm192_pre
                                                : (void *) m->gcm256_pre;
@@ -481,7 +494,7 @@ prep_cipher_keys(struct item *it, struct mmgr *km)
                 break;
         }
         case IMB_CIPHER_SM4_GCM: {
-                struct gcm_key_data *g = galloc(it, "sm4gcmkey", sizeof *g, 64);
+                struct gcm_key_data *g = kalloc(it, "sm4gcmkey", sizeof *g, 64, 0);
                 mcall("imb_sm4_gcm_pre", (void *) imb_sm4_gcm_pre, 3, (uint64_t) m, (uint64_t) k->ckey,
                       (uint64_t) g);
                 k->enc = k->dec = g;
@@ -489,7 +502,7 @@ prep_cipher_keys(struct item *it, struct mmgr *km)
         }
         case IMB_CIPHER_DES:
         case IMB_CIPHER_DOCSIS_DES: {
-                uint64_t *s = galloc(it, "deskey", IMB_DES_KEY_SCHED_SIZE, 8);
+                uint64_t *s = kalloc(it, "deskey", IMB_DES_KEY_SCHED_SIZE, 8, 0);
                 mcall("des_key_sched", (void *) m->des_key_sched, 2, (uint64_t) s, (uint64_t) k->ckey);
                 k->enc = k->dec = s;
                 break;
@@ -502,6 +515,12 @@ prep_cipher_keys(struct item *it, struct mmgr *km)
                         mcall("des_key_sched", (void *) m->des_key_sched, 2, (uint64_t) s,
                               (uint64_t) (k->ckey + 8 * i));
                         pp[i] = s;
+                        if (it->k.nobjs < (int) ARRAY_SZ(it->k.objs)) {
+                                it->k.objs[it->k.nobjs].p = s;
+                                it->k.objs[it->k.nobjs].n = IMB_DES_KEY_SCHED_SIZE;
+                                it->k.objs[it->k.nobjs].cls = 0;
+                                it->k.nobjs++;
+                        }
                 }
                 k->enc = k->dec = pp;
                 break;
@@ -512,14 +531,14 @@ prep_cipher_keys(struct item *it, struct mmgr *km)
         case IMB_CIPHER_SNOW_V:
         case IMB_CIPHER_SNOW_V_AEAD:
         case IMB_CIPHER_ZUC_EEA3: {
-                uint8_t *r = galloc(it, "rawkey", it->keylen, 1);
+                uint8_t *r = kalloc(it, "rawkey", it->keylen, 1, 0);
                 memcpy(r, k->ckey, it->keylen);
                 k->enc = k->dec = r;
                 break;
         }
         case IMB_CIPHER_SNOW3G_UEA2_BITLEN: {
                 size_t sz = (size_t) mcall("snow3g_key_sched_size", (void *) m->snow3g_key_sched_size, 0);
-                void *s = galloc(it, "snow3gkey", sz, 16);
+                void *s = kalloc(it, "snow3gkey", sz, 16, 0);
                 mcall("snow3g_init_key_sched", (void *) m->snow3g_init_key_sched, 2, (uint64_t) k->ckey,
                       (uint64_t) s);
                 k->enc = k->dec = s;
@@ -527,7 +546,7 @@ prep_cipher_keys(struct item *it, struct mmgr *km)
         }
         case IMB_CIPHER_KASUMI_UEA1_BITLEN: {
                 size_t sz = (size_t) mcall("kasumi_key_sched_size", (void *) m->kasumi_key_sched_size, 0);
-                void *s = galloc(it, "kasumikey", sz, 16);
+                void *s = kalloc(it, "kasumikey", sz, 16, 0);
                 mcall("kasumi_init_f8_key_sched", (void *) m->kasumi_init_f8_key_sched, 2,
                       (uint64_t) k->ckey, (uint64_t) s);
                 k->enc = k->dec = s;
@@ -536,7 +555,7 @@ prep_cipher_keys(struct item *it, struct mmgr *km)
         case IMB_CIPHER_SM4_ECB:
         case IMB_CIPHER_SM4_CBC:
         case IMB_CIPHER_SM4_CNTR: {
-                uint32_t *e = galloc(it, "sm4enc", 128, 16), *d = galloc(it, "sm4dec", 128, 16);
+                uint32_t *e = kalloc(it, "sm4enc", 128, 16, 0), *d = kalloc(it, "sm4dec", 128, 16, 0);
                 mcall("sm4_keyexp", (void *) m->sm4_keyexp, 3, (uint64_t) k->ckey, (uint64_t) e,
                       (uint64_t) d);
                 k->enc = e;
@@ -586,8 +605,8 @@ prep_hash_keys(struct item *it, struct mmgr *km)
                 mcall("imb_hmac_ipad_opad", (void *) imb_hmac_ipad_opad, 6, (uint64_t) m,
                       (uint64_t) it->hash, (uint64_t) k->akey, (uint64_t) k->akey_len, (uint64_t) ip,
                       (uint64_t) op);
-                k->a1 = galloc(it, "ipad", sz, 4);
-                k->a2 = galloc(it, "opad", sz, 4);
+                k->a1 = kalloc(it, "ipad", sz, 4, 1);
+                k->a2 = kalloc(it, "opad", sz, 4, 1);
                 memcpy(k->a1, ip, sz);
                 memcpy(k->a2, op, sz);
                 break;
@@ -598,9 +617,9 @@ prep_hash_keys(struct item *it, struct mmgr *km)
                 DECLARE_ALIGNED(uint8_t k3[16], 16);
                 mcall("xcbc_keyexp", (void *) m->xcbc_keyexp, 4, (uint64_t) k->akey, (uint64_t) k1,
                       (uint64_t) k2, (uint64_t) k3);
-                k->a1 = galloc(it, "xcbc_k1", 176, 16);
-                k->a2 = galloc(it, "xcbc_k2", 16, 16);
-                k->a3 = galloc(it, "xcbc_k3", 16, 16);
+                k->a1 = kalloc(it, "xcbc_k1", 176, 16, 1);
+                k->a2 = kalloc(it, "xcbc_k2", 16, 16, 1);
+                k->a3 = kalloc(it, "xcbc_k3", 16, 16, 1);
                 memcpy(k->a1, k1, 176);
                 memcpy(k->a2, k2, 16);
                 memcpy(k->a3, k3, 16);
@@ -619,9 +638,9 @@ prep_hash_keys(struct item *it, struct mmgr *km)
                       (uint64_t) k->akey, (uint64_t) e, (uint64_t) d);
                 mcall("cmac_subkey_gen", k256 ? (void *) m->cmac_subkey_gen_256 : (void *) m->cmac_subkey_gen_128,
                       3, (uint64_t) e, (uint64_t) s1, (uint64_t) s2);
-                k->a1 = galloc(it, "cmac_key", sz, 16);
-                k->a2 = galloc(it, "cmac_sk1", 16, 16);
-                k->a3 = galloc(it, "cmac_sk2", 16, 16);
+                k->a1 = kalloc(it, "cmac_key", sz, 16, 1);
+                k->a2 = kalloc(it, "cmac_sk1", 16, 16, 1);
+                k->a3 = kalloc(it, "cmac_sk2", 16, 16, 1);
                 memcpy(k->a1, e, sz);
                 memcpy(k->a2, s1, 16);
                 memcpy(k->a3, s2, 16);
@@ -630,7 +649,7 @@ prep_hash_keys(struct item *it, struct mmgr *km)
         case IMB_AUTH_AES_GMAC_128:
         case IMB_AUTH_AES_GMAC_192:
         case IMB_AUTH_AES_GMAC_256: {
-                struct gcm_key_data *g = galloc(it, "gmackey", sizeof *g, 64);
+                struct gcm_key_data *g = kalloc(it, "gmackey", sizeof *g, 64, 1);
                 void *fn = it->hash == IMB_AUTH_AES_GMAC_128   ? (void *) m->gcm128_pre
                            : it->hash == IMB_AUTH_AES_GMAC_192 ? (void *) m->gcm192_pre
                                                                : (void *) m->gcm256_pre;
@@ -639,7 +658,7 @@ prep_hash_keys(struct item *it, struct mmgr *km)
                 break;
         }
         case IMB_AUTH_GHASH: {
-                struct gcm_key_data *g = galloc(it, "ghashkey", sizeof *g, 64);
+                struct gcm_key_data *g = kalloc(it, "ghashkey", sizeof *g, 64, 1);
                 mcall("ghash_pre", (void *) m->ghash_pre, 2, (uint64_t) k->akey, (uint64_t) g);
                 k->a1 = g;
                 break;
@@ -648,20 +667,20 @@ prep_hash_keys(struct item *it, struct mmgr *km)
         case IMB_AUTH_ZUC_EIA3_BITLEN:
         case IMB_AUTH_ZUC256_EIA3_BITLEN: {
                 size_t sz = it->hash == IMB_AUTH_ZUC_EIA3_BITLEN ? 16 : 32;
-                k->a1 = galloc(it, "authkey", sz, 1);
+                k->a1 = kalloc(it, "authkey", sz, 1, 1);
                 memcpy(k->a1, k->akey, sz);
                 break;
         }
         case IMB_AUTH_SNOW3G_UIA2_BITLEN: {
                 size_t sz = (size_t) mcall("snow3g_key_sched_size", (void *) m->snow3g_key_sched_size, 0);
-                k->a1 = galloc(it, "snow3gakey", sz, 16);
+                k->a1 = kalloc(it, "snow3gakey", sz, 16, 1);
                 mcall("snow3g_init_key_sched", (void *) m->snow3g_init_key_sched, 2, (uint64_t) k->akey,
                       (uint64_t) k->a1);
                 break;
         }
         case IMB_AUTH_KASUMI_UIA1: {
                 size_t sz = (size_t) mcall("kasumi_key_sched_size", (void *) m->kasumi_key_sched_size, 0);
-                k->a1 = galloc(it, "kasumiakey", sz, 16);
+                k->a1 = kalloc(it, "kasumiakey", sz, 16, 1);
                 mcall("kasumi_init_f9_key_sched", (void *) m->kasumi_init_f9_key_sched, 2,
                       (uint64_t) k->akey, (uint64_t) k->a1);
                 break;
